@@ -141,8 +141,12 @@ def build(flavour, harnesses, extra_flags=None):
         links = []
         for hname in harnesses:
             src = os.path.join(hdir, hname + ".cpp")
+            # a harness may include other harness files (the fuzz targets include the ordinary harness): hash its transitive local includes
             deps = [src] + common + sorted(
                 os.path.join(hdir, f) for f in os.listdir(hdir) if f.endswith(".hpp") and f not in ("common.hpp", "libs.hpp"))
+            with open(src) as sfh:
+                for inc in re.findall(r'#include "([^"]+\.cpp)"', sfh.read()):
+                    deps.append(os.path.join(hdir, inc))
             hk = _file_hash(deps, " ".join(extra_flags or []))
             obj = os.path.join(d, "%s-%s.o" % (hname, hk))
             exe = os.path.join(d, "%s-%s" % (hname, hk))
@@ -589,3 +593,48 @@ def _short(x, n=4000):
     if isinstance(x, bytes):
         x = esc(x)
     return x if len(x) <= n else x[:n] + "...(%d bytes)" % len(x)
+
+
+def run_libfuzzer(exe, name, corpus_inputs, runs, dictionary=None, max_len=4096, jobs=None, timeout_per_input=60):
+    """Runs a libFuzzer target for a bounded number of executions (per job). Returns (stats dict, list of artifact byte strings)."""
+    d = scratch_dir(name)
+    cdir = os.path.join(d, "corpus")
+    adir = os.path.join(d, "artifacts")
+    os.makedirs(cdir)
+    os.makedirs(adir)
+    for i, b in enumerate(corpus_inputs):
+        with open(os.path.join(cdir, "seed%05d" % i), "wb") as fh:
+            fh.write(b[:max_len])
+    jobs = jobs or max(2, NCPU // 2)
+    cmd = [exe, cdir, "-runs=%d" % runs, "-max_len=%d" % max_len, "-timeout=%d" % timeout_per_input, "-rss_limit_mb=6000", "-print_final_stats=1",
+           "-artifact_prefix=%s/" % adir, "-jobs=%d" % jobs, "-workers=%d" % jobs, "-ignore_crashes=0", "-reload=1"]
+    if dictionary:
+        dp = os.path.join(d, "dict.txt")
+        with open(dp, "w") as fh:
+            for w in dictionary:
+                fh.write('"%s"\n' % "".join("\\x%02x" % c for c in w))
+        cmd.append("-dict=" + dp)
+    e = dict(os.environ)
+    e.update(ASAN_ENV)
+    e["ASAN_OPTIONS"] = e["ASAN_OPTIONS"].replace("detect_stack_use_after_return=1", "detect_stack_use_after_return=0")
+    p = subprocess.run(cmd, cwd=d, env=e, capture_output=True, text=True, preexec_fn=_preexec_stack(512 << 20))
+    stats = {"executions": 0, "jobs": jobs, "corpus_seeds": len(corpus_inputs), "coverage_edges": 0, "new_units": 0, "exit": p.returncode}
+    for fn in sorted(os.listdir(d)):
+        if fn.startswith("fuzz-") and fn.endswith(".log"):
+            with open(os.path.join(d, fn), errors="replace") as fh:
+                txt = fh.read()
+            m = re.search(r"stat::number_of_executed_units:\s*(\d+)", txt)
+            if m:
+                stats["executions"] += int(m.group(1))
+            m = re.search(r"stat::new_units_added:\s*(\d+)", txt)
+            if m:
+                stats["new_units"] += int(m.group(1))
+            covs = re.findall(r"cov: (\d+)", txt)
+            if covs:
+                stats["coverage_edges"] = max(stats["coverage_edges"], int(covs[-1]))
+    arts = []
+    for fn in sorted(os.listdir(adir)):
+        with open(os.path.join(adir, fn), "rb") as fh:
+            arts.append((fn, fh.read()))
+    shutil.rmtree(d, ignore_errors=True)
+    return stats, arts
